@@ -25,6 +25,19 @@ func relInput(c *core.Ctx, p *population, idx int) (data []byte, desc string, fi
 		if len(f.Fields) > 0 && r.Bool() {
 			fl := f.Fields[r.Intn(len(f.Fields))]
 			cut = fl.Off + r.Pick(0, 1, fl.Width)
+			if r.Bool() {
+				// inside an out-of-line value: some of its bytes are delivered, the rest is missing
+				var vals []gen.Field
+				for _, x := range f.Fields {
+					if x.Kind == "value" && x.Bound > 2 {
+						vals = append(vals, x)
+					}
+				}
+				if len(vals) > 0 {
+					v := vals[r.Intn(len(vals))]
+					cut = v.Off + r.Range(1, v.Bound-1)
+				}
+			}
 			if cut > len(f.Data) {
 				cut = len(f.Data)
 			}
@@ -45,7 +58,7 @@ type C08 struct {
 func (e *C08) ID() string    { return "C08" }
 func (e *C08) Level() string { return "fault_enumeration" }
 func (e *C08) Rule() string {
-	return "each case is one input x (valid corpus/generated file of every container, a truncation at a structure boundary or random point, or a 1-2 operator malformation) run through its natural entry points plus one random one, first over an in-memory reader and then over every chunk schedule of a fixed list (1 byte at a time; 2; 3; 7; the cycle 1,2,3,7,8,9,63,64,65,511,4095,4096,4097; 4095; 4096; 4097; 64,1; 5,1000; 13; 511,1,1,1; each also with the last bytes delivered together with io.EOF) plus a seeded random schedule, all with a working Seek and pristine library state before each call. Oracle: canonical observation (values and error text) identical to the in-memory run. Zero-length reads are never produced. Non-trivial: the chunked run performed >=2 short reads; distinct = (entry, schedule, outcome class)."
+	return "each case is one input x (valid corpus/generated file of every container, a truncation at a structure boundary or random point, or a 1-2 operator malformation) run through its natural entry points plus one random one, first over an in-memory reader and then over every chunk schedule of a fixed list (1 byte at a time; 2; 3; 7; the cycle 1,2,3,7,8,9,63,64,65,511,4095,4096,4097; 4095; 4096; 4097; 64,1; 5,1000; 13; 511,1,1,1; 65536; 8192,100; each also with the last bytes delivered together with io.EOF; and whole requests honoured in full with the last bytes delivered together with io.EOF, which is what reaches a buffered reader's direct-read path) plus a seeded random schedule, all with a working Seek and pristine library state before each call. Oracle: canonical observation (values and error text) identical to the in-memory run. Zero-length reads are never produced. Non-trivial: the chunked run performed >=2 short reads; distinct = (entry, schedule, outcome class)."
 }
 func (e *C08) Assumptions() []string {
 	return []string{"schedules are enumerated from a fixed list for every input; the input population is seeded", "1-byte schedules are applied to inputs up to 96 KiB (the corpus cap)"}
@@ -66,7 +79,7 @@ func (e *C08) Run(c *core.Ctx, idx int) {
 	ents := append([]int(nil), p.natural[fi]...)
 	ents = append(ents, r.Intn(len(p.entries)))
 	scheds := append([][]int(nil), schedules...)
-	scheds = append(scheds, randSched(r))
+	scheds = append(scheds, randSched(r), []int{65536}, []int{8192, 100}, nil)
 	for _, ei := range ents {
 		ent := p.entries[ei]
 		imagemeta.VerifResetState()
@@ -79,7 +92,10 @@ func (e *C08) Run(c *core.Ctx, idx int) {
 		c.Rec.Eval(1)
 		for si, sc := range scheds {
 			for _, withEOF := range []bool{false, true} {
-				if withEOF && si%3 != idx%3 { // data+EOF variant on a third of the schedules per case
+				if sc == nil && !withEOF {
+					continue // whole requests without data+EOF is the reference run itself
+				}
+				if withEOF && sc != nil && si%3 != idx%3 { // data+EOF variant on a third of the schedules per case
 					continue
 				}
 				rs := mon.NewRS(data)
